@@ -32,7 +32,7 @@ Text(i) == CASE i = "wv1" -> "(defvar wv1 '(1 \"two\" (3 . 4) #\\c sym :kw))"
              [] i = "wp1" -> "(defparameter wp1 12)"
              [] i = "wp1b" -> "(setq wp1 40)"
              [] i = "wc1" -> "(defconstant wc1 \"const\")"
-             [] i = "wh1" -> "(progn (defvar wh1 (make-hash-table)) (setf (gethash 'k wh1) 7) (setf (gethash \"s\" wh1) '(1 2)))"
+             [] i = "wh1" -> "(progn (defvar wh1 (make-hash-table)) (setf (gethash 'k wh1) 7) (setf (gethash \"s\" wh1) '(1 2)) (setf (gethash 1 wh1) 'one) (setf (gethash :kw wh1) \"v\") (setf (gethash #\\c wh1) 2.5) (setf (gethash 'zz wh1) nil))"
              [] i = "wf1" -> "(defun wf1 (x) (+ x wp1))"
              [] i = "wf1b" -> "(defun wf1 (x &optional (k 3)) \"multiplied\" (let ((y (* x k))) (if (< y 10) y (- y 1))))"
              [] i = "wf2" -> "(defun wf2 (a &optional (b 2) &key (c 3)) (list a b c (wf1 a)))"
@@ -62,7 +62,7 @@ Text(i) == CASE i = "wv1" -> "(defvar wv1 '(1 \"two\" (3 . 4) #\\c sym :kw))"
              [] i = "wg3" -> "(defgeneric wg3 (o p))"
              [] i = "wg3a" -> "(defmethod wg3 ((o wcn) (p fixnum)) (list 'n (slot-value o 'z) p))"
              [] i = "wg3b" -> "(defmethod wg3 :around ((o wcn2) (p t)) (cons 'around (call-next-method o p)))"
-             [] i = "wl1" -> "(defvar wl1 (lambda (x) (* x 3)))"
+             [] i = "wl1" -> "(defvar wl1 (lambda (x) (let ((y 3)) (cond ((< x 0) 0 1) (t (when (< y 0) 5 6) (* x y))))))"
              [] i = "wpk" -> "(progn (defpackage \"wpk\" (:use \"common-lisp\") (:export \"pf\")) (in-package \"wpk\") (defun pf (x) (list 'pf x)) (in-package \"common-lisp-user\"))"
 \* the probes: Lisp text, evaluated and printed with prin1 (an error is the text "error")
 Probes == <<"wv1", "wp1", "wc1", "(gethash 'k wh1)", "(gethash \"s\" wh1)", "(hash-table-count wh1)", "(wf1 5)", "(wf1 1)", "(wf1 2 4)", "(wf2 1)", "(wf2 1 7 :c 8)", "(wm1 4)",
@@ -87,7 +87,7 @@ Expected(d, p) ==
     [] p = "wc1" -> IF has("wc1") THEN "\"const\"" ELSE err
     [] p = "(gethash 'k wh1)" -> IF has("wh1") THEN "7" ELSE err
     [] p = "(gethash \"s\" wh1)" -> IF has("wh1") THEN "(1 2)" ELSE err
-    [] p = "(hash-table-count wh1)" -> IF has("wh1") THEN "2" ELSE err
+    [] p = "(hash-table-count wh1)" -> IF has("wh1") THEN "6" ELSE err
     [] p = "(wf1 5)" -> IF has("wf1") THEN Num(Wf1(d, 5)) ELSE err
     [] p = "(wf1 1)" -> IF has("wf1") THEN Num(Wf1(d, 1)) ELSE err
     [] p = "(wf1 2 4)" -> IF has("wf1b") THEN "8" ELSE err          \* the first definition takes one argument
